@@ -32,7 +32,10 @@ def run_records(check_id, records):
             outs.append(dict(skip=True))
             continue
         try:
-            outs.append(f(rec["cfg"], rec["inputs"]))
+            cfg = rec["cfg"]
+            if rec.get("failed") and isinstance(cfg, dict):
+                cfg = dict(cfg, _failed=rec["failed"])
+            outs.append(f(cfg, rec["inputs"]))
         except Exception as e:  # the replay function itself failed: not a verdict
             outs.append(dict(error="%s: %s" % (type(e).__name__, e), trace=traceback.format_exc()[-2000:]))
     return outs
